@@ -1203,7 +1203,7 @@ package mcp
 // received completely on the logical stream (across bodies). Reconnects carry exactly that id; and the loop gives
 // up on a pending call only if the client closed, there is no cursor at all, the connection was failed (retries
 // exhausted, reconnect or status error), or the caller's context is cancelled.
-//@ func (*streamableClientConn).handleSSE [C09]
+//@ func (*streamableClientConn).handleSSE [C09, C01]
 //@   track processStreamFrom as body
 //@   track connectSSE as reconnect
 //@   track (*streamableClientConn).fail as failConn
@@ -1224,7 +1224,7 @@ package mcp
 //@   requires c != nil
 //@   modifies extern
 //@   modifies c._failure, chanState
-//@ func (*streamableClientConn).processStreamFrom [C09]
+//@ func (*streamableClientConn).processStreamFrom [C09, C01]
 //@   track fmt.Errorf as synthetic
 //@   track DecodeMessage as decode
 //@   requires c != nil && resp != nil
